@@ -173,7 +173,7 @@ Definition infer_candidates (sc : scope) (id : ident) : list infer_cand :=
 
 (* ---- resolve_ident_core ---- *)
 
-Inductive err := EUnknown | EAmbiguous | ENotAValue | ETooManyArgs | EUnknownNamed | ENotARelation | ETypeMismatch.
+Inductive err := EUnknown | EAmbiguous | ENotAValue | ETooManyArgs | EUnknownNamed | ENotARelation | ETypeMismatch | ENotAType.
 
 Inductive resolved :=
 | RBound (c : cand)
@@ -446,3 +446,25 @@ Definition lower_ref_m (c : cfg) (ms : mscope) (id : ident) : outcome :=
   | RInferred ITable => OErr ENotAValue
   | RErr e => OErr e
   end.
+
+(* ---- type names (resolver/expr.rs fold_type, TyKind::Ident) ----
+   A type annotation that is an identifier (`func x <int> -> ..`, `let v <mytype> = ..`) is resolved with resolve_ident
+   while `this` and `that` are SHADOWED by empty modules: the columns and inputs of the current frame are not in scope
+   for type names, so a column spelled like a type cannot capture the annotation and a column name is never a type.
+   The declaration found must be a type ("expected a type, but found ..."). *)
+Inductive type_outcome := TOk | TErr (e : err).
+
+Definition type_ref (sc : scope) (id : ident) : type_outcome :=
+  match resolve (shadowed sc) id with
+  | RBound (CRoot NType) | RBound (CStd NType) | RBound (CParam NType) => TOk
+  | RBound _ => TErr ENotAType
+  | RInferred _ => TErr ENotAType       (* default_db.x: inferred as a table, which is not a type *)
+  | RErr e => TErr e
+  end.
+
+(* the name denotes a declaration (not a column, not an input) *)
+Definition names_decl (sc : scope) (n : str) : bool :=
+  existsb (fun p => leqb n (fst p)) (s_root sc)
+  || existsb (fun p => leqb n (fst p)) (s_param sc)
+  || existsb (fun p => path_eqb [n] (fst p)) (s_std sc)
+  || leqb n s_this_name || leqb n s_that_name.
